@@ -13,16 +13,28 @@
                                    (attributes, tags, ancestor set) it has in the store; others are absent
      c16_slice_hop_closed          every uid mentioned by an entity of slice n is within n+1 hops
                                    (the invariant "values obtained by k hops mention uids at distance <= k+1")
-   PARTIAL:
-     c16_slice_sound_partial       evaluation on the slice = evaluation on the full store ONLY for the
-                                   base case of the invariant: one dereference (attribute read, has, in,
-                                   hasTag/getTag) applied directly to a request variable, at any level >= 1.
-                                   MISSING: the inductive step through dereference chains, if, record
-                                   literals with access paths and getTag, which needs the soundness of the
-                                   type annotations (C03); the lift to whole responses (C01).  That part of
-                                   the property is covered only by the correspondence + the slice-vs-full
-                                   oracle on the implementation (vp/props/c16.py). *)
-From Cedar Require Import Level LevelProofs.
+     c16_slice_sound_base          one dereference applied directly to a request variable evaluates on the
+                                   level-(n+1) slice as on the full store (no hypothesis on annotations)
+   PARTIAL (everything below is proved for ALL constructors of typed expressions — literals, variables,
+   slots, if, &&, ||, unary/binary operators incl. in / hasTag / getTag, extension calls, getAttr / hasAttr on
+   entities and records, like, is, set and record literals with access paths — but UNDER THE HYPOTHESIS
+   `te_ok`: the type annotations are sound, i.e. the target of every getAttr/hasAttr annotated with an entity
+   type evaluates (if at all) to an entity and annotated with a record type to a record, and record
+   literals have distinct keys.  That hypothesis is what C03 should deliver; C03's theorem on main covers
+   only a small fragment, so it is NOT discharged here — hence `_partial`.  Conformance of the store is not
+   needed beyond `te_ok`.):
+     c16_target_distance_partial   the invariant: a dereference target accepted with level l evaluates on the
+                                   full store to a value whose projection along the access path mentions only
+                                   uids within l+1 hops of the request roots
+     c16_between_partial           sandwich: ANY store that agrees with the full store on the entities within n
+                                   hops (the slice, every store between slice and full store, and more)
+                                   evaluates an expression accepted at level n exactly like the full store
+     c16_slice_sound_partial       the instance for slice_at_level n
+     c16_response_partial          lift to responses (Authz.is_authorized, the function C01's theorems
+                                   characterise): same decision, determining policies and erroring policies
+                                   (with error classes) on every such store, for policy lists whose
+                                   conditions are erasures of accepted typed expressions *)
+From Cedar Require Import Level LevelProofs LevelSound.
 
 Theorem c16_monotone : forall act n n2 e,
   (n <= n2)%N -> level_ok act n e = true -> level_ok act n2 e = true.
@@ -55,13 +67,45 @@ Theorem c16_slice_hop_closed : forall n q es u d,
 Proof. exact slice_hop_closed. Qed.
 Print Assumptions c16_slice_hop_closed.
 
-Theorem c16_slice_sound_partial : forall n q es sl v k op p,
+Theorem c16_slice_sound_base : forall n q es sl v k op p,
   let s := slice_at_level (S n) q es in
   eval sl q s (GetAttr (Var v) k) = eval sl q es (GetAttr (Var v) k) /\
   eval sl q s (HasAttr (Var v) k) = eval sl q es (HasAttr (Var v) k) /\
   eval sl q s (BinApp op (Var v) (Lit p)) = eval sl q es (BinApp op (Var v) (Lit p)).
 Proof. exact slice_sound_base. Qed.
+Print Assumptions c16_slice_sound_base.
+
+Theorem c16_target_distance_partial : forall sl q es n te path v v',
+  te_ok sl q es te -> snd (lv (raction q) (N.of_nat n) (Some path) te) = [] ->
+  eval sl q es (erase te) = Ok v -> proj path v = Some v' ->
+  incl (value_uids v') (reach es (S (N.to_nat (fst (lv (raction q) (N.of_nat n) (Some path) te)))) (request_roots q)).
+Proof. exact target_distance. Qed.
+Print Assumptions c16_target_distance_partial.
+
+Theorem c16_between_partial : forall sl q es st n te,
+  (forall u, In u (reach es n (request_roots q)) -> find_entity u st = find_entity u es) ->
+  te_ok sl q es te ->
+  level_ok (raction q) (N.of_nat n) te = true ->
+  eval sl q st (erase te) = eval sl q es (erase te).
+Proof. exact between_sound. Qed.
+Print Assumptions c16_between_partial.
+
+Theorem c16_slice_sound_partial : forall sl q es n te,
+  te_ok sl q es te -> level_ok (raction q) (N.of_nat n) te = true ->
+  eval sl q (slice_at_level n q es) (erase te) = eval sl q es (erase te).
+Proof. exact slice_sound. Qed.
 Print Assumptions c16_slice_sound_partial.
+
+Theorem c16_response_partial : forall ps q es st n,
+  (st = slice_at_level n q es \/
+   forall u, In u (reach es n (request_roots q)) -> find_entity u st = find_entity u es) ->
+  (forall p, In p ps ->
+     exists te, erase te = pcondition p /\ te_ok (penv p) q es te /\ level_ok (raction q) (N.of_nat n) te = true) ->
+  is_authorized ps q st = is_authorized ps q es.
+Proof.
+  intros ps q es st n [->|H] Hps; [apply (response_slice ps q es n) | apply (response_between ps q es st n)]; assumption.
+Qed.
+Print Assumptions c16_response_partial.
 
 (* ---- non-vacuity: `principal.manager.n < 7` (typed for principal : User) needs level 2 ---- *)
 Definition uU : uid := mkUid [s2str "User"] (s2str "a").
@@ -92,4 +136,21 @@ Example ex_slice_0 : map fst (slice_at_level 0 ex_req ex_store) = []. Proof. vm_
 Example ex_slice_1 : map fst (slice_at_level 1 ex_req ex_store) = [uU]. Proof. vm_compute. reflexivity. Qed.
 Example ex_slice_2 : map fst (slice_at_level 2 ex_req ex_store) = [uU; uB]. Proof. vm_compute. reflexivity. Qed.
 Example ex_slice_keeps : find_entity uB (slice_at_level 2 ex_req ex_store) = Some (mkEdata [(s2str "manager", VEntity uC)] [] [uC]).
+Proof. vm_compute. reflexivity. Qed.
+
+(* the soundness hypotheses are satisfiable and the level is tight: b.n = 3 *)
+Definition ex_store2 : entities :=
+  [(uU, mkEdata [(s2str "manager", VEntity uB)] [] []);
+   (uB, mkEdata [(s2str "manager", VEntity uC); (s2str "n", VLong 3)] [] [uC]); (uC, mkEdata [] [] [])].
+Example ex_te_ok : te_ok [] ex_req ex_store2 ex_policy.
+Proof.
+  cbn [te_ok ex_policy]. repeat split; intros Ht v Hv; vm_compute in Ht; try discriminate;
+    vm_compute in Hv; inversion Hv; subst; eexists; reflexivity.
+Qed.
+Example ex_sound_2 :
+  eval [] ex_req (slice_at_level 2 ex_req ex_store2) (erase ex_policy) = eval [] ex_req ex_store2 (erase ex_policy).
+Proof. apply (c16_slice_sound_partial [] ex_req ex_store2 2 ex_policy ex_te_ok). vm_compute. reflexivity. Qed.
+Example ex_full_value : eval [] ex_req ex_store2 (erase ex_policy) = Ok (VBool true).
+Proof. vm_compute. reflexivity. Qed.
+Example ex_level_tight : eval [] ex_req (slice_at_level 1 ex_req ex_store2) (erase ex_policy) = Err ErrEntityMissing.
 Proof. vm_compute. reflexivity. Qed.
